@@ -21,22 +21,36 @@ ALIGN_OPS = ["set_column_alignment", "column_alignments", "default_column_alignm
 ANSI_IO = {"utf8": True, "ansi": True, "verb": "normal"}
 
 
+TAGGED = {"bold": lambda st: st.bold(), "red": lambda st: st.fg("red"), "blue": lambda st: st.bg("blue"),
+          "under": lambda st: st.underlined()}
+
+
 def style_value(v):
-    """symbolic value of a cell / rule style -> formatter Style"""
+    """symbolic value of a cell / rule style -> formatter Style.  "tag:attr" is a Style carrying that tag: two values
+    with the same tag and different attributes are two different styles that happen to share a name"""
     from clikit.api.formatter import Style
 
     if v == "":
         return None
+    if ":" in v:
+        tag, attr = v.split(":", 1)
+        return TAGGED[attr](Style(tag))
     return Style().bold() if v == "bold" else Style().underlined()
 
 
 def style_name(st):
     if st is None:
         return ""
+    if st.tag:
+        attr = "bold" if st.is_bold() else "under" if st.is_underlined() else "red" if st.foreground_color == "red" else \
+            "blue" if st.background_color == "blue" else "?"
+        return st.tag + ":" + attr
     return "bold" if st.is_bold() else "#"
+
+
 NOIO = {"utf8": True, "ansi": False, "verb": "normal"}
 KINDS = ["borderless", "compact", "ascii", "solid"]
-COMPONENTS = ["table", "para", "labeled", "namever", "empty", "apphelp", "cmdhelp", "trace", "trace2"]
+COMPONENTS = ["table", "para", "parared", "labeled", "namever", "empty", "apphelp", "cmdhelp", "trace", "trace2"]
 LOREM = ("<b>Lorem</b> ipsum dolor sit amet, consetetur sadipscing elitr, sed diam nonumy eirmod tempor invidunt ut "
          "labore et dolore magna aliquyam erat, sed diam voluptua.")
 
@@ -80,6 +94,7 @@ class Driver(object):
         fresh_process_state()
         self.refs = refs or {}
         self.styles = []
+        self.own = []  # per style: its own operations (with s = 1), the key of its fresh-process reference
         self.instances = {}
         self.texts = {}
         self._app = None
@@ -88,13 +103,21 @@ class Driver(object):
         return self.texts.setdefault(text, len(self.texts) + 1)
 
     # ------------------------------------------------------------ I/O
-    def io(self, spec, width=60):
+    def io(self, spec, width=60, redefined=False):
+        """redefined: the formatter's style set gives the stock tag c1 other attributes (as an application does with
+        config.add_style(Style("c1")...))"""
+        from clikit.api.formatter import Style
         from clikit.api.io import flags
-        from clikit.formatter import AnsiFormatter
+        from clikit.formatter import AnsiFormatter, DefaultStyleSet, PlainFormatter
         from clikit.io import BufferedIO
         from clikit.ui.rectangle import Rectangle
 
-        io = BufferedIO(formatter=AnsiFormatter(forced=True) if spec["ansi"] else None, supports_utf8=bool(spec["utf8"]))
+        style_set = None
+        if redefined:
+            style_set = DefaultStyleSet()
+            style_set.add(Style("c1").fg("red").bold())
+        fmt = AnsiFormatter(style_set, forced=True) if spec["ansi"] else PlainFormatter(style_set)
+        io = BufferedIO(formatter=fmt, supports_utf8=bool(spec["utf8"]))
         io.set_terminal_dimensions(Rectangle(width, 50))
         io.set_verbosity({"normal": flags.NORMAL, "verbose": flags.VERBOSE, "debug": flags.DEBUG}[spec["verb"]])
         return io
@@ -158,6 +181,8 @@ class Driver(object):
                 c.add_rows([["one", LOREM.replace("<b>", "").replace("</b>", "")], ["two", "short"]])
             elif comp == "para":
                 c = Paragraph(LOREM)
+            elif comp == "parared":
+                c = Paragraph("<c1>Lorem</c1> ipsum dolor <c2>sit</c2> amet")
             elif comp == "labeled":
                 c = LabeledParagraph("<c1>label</c1>", LOREM)
             elif comp == "namever":
@@ -183,10 +208,11 @@ class Driver(object):
 
         ev = {"op": op["op"], "kind": op.get("kind", ""), "s": op.get("s", 0), "field": op.get("field", ""),
               "value": op.get("value", ""), "comp": op.get("comp", ""), "inst": op.get("inst", 0), "io": op.get("io", NOIO),
-              "col": op.get("col", 0), "a": op.get("a", 0), "seq": op.get("seq", []), "ids": [], "fields": [], "id": 0, "ref": 0}
+              "col": op.get("col", 0), "a": op.get("a", 0), "seq": op.get("seq", []), "ids": [], "fields": [], "refs": [], "id": 0, "ref": 0}
         k = op["op"]
         if k == "make":
             self.styles.append(getattr(TableStyle, op["kind"])())
+            self.own.append([dict(op)])
             ev["s"] = len(self.styles)
         elif k == "custom":
             st = self.styles[op["s"] - 1]
@@ -201,7 +227,7 @@ class Driver(object):
             else:
                 st.default_column_alignment = op["a"]
         elif k == "render":
-            io = self.io(op["io"])
+            io = self.io(op["io"], redefined=(op["comp"] == "parared"))
             try:
                 self.component(op["comp"], op["inst"]).render(io)
                 text = io.fetch_output() + "\x00" + io.fetch_error()
@@ -210,9 +236,13 @@ class Driver(object):
             ev["id"] = self.intern("R" + text)
             # what a fresh process shows for this component on this I/O (absent: no reference, compared with itself)
             ev["ref"] = self.intern("R" + self.refs.get(ref_key(op["comp"], op["io"]), text))
+        if k in ("custom", "align"):
+            self.own[op["s"] - 1].append(dict(op, s=1))
         if k in ("make", "custom", "align"):
             ev["ids"] = [self.intern("T" + self.table_text(st)) for st in self.styles]
             ev["fields"] = [self.fields(st) for st in self.styles]
+            # what a fresh process shows for a style with this own history alone (0: no reference taken)
+            ev["refs"] = [self.intern("T" + self.refs[style_key(h)]) if style_key(h) in self.refs else 0 for h in self.own]
         return ev
 
 
@@ -223,6 +253,36 @@ def run_ops(ops, refs=None):
 
 def ref_key(comp, io):
     return "%s/%d%d%s" % (comp, bool(io["utf8"]), bool(io["ansi"]), io["verb"])
+
+
+def style_key(history):
+    return "S/" + json.dumps([[o["op"], o.get("kind", ""), o.get("field", ""), o.get("value", ""), o.get("col", 0), o.get("a", 0),
+                               o.get("seq", [])] for o in history])
+
+
+def own_histories(ops):
+    """the own histories that occur in a sequence (every prefix per style), as lists of operations with s = 1"""
+    own, out = [], []
+    for op in ops:
+        if op["op"] == "make":
+            own.append([dict(op)])
+            out.append(list(own[-1]))
+        elif op["op"] in ("custom", "align"):
+            own[op["s"] - 1].append(dict(op, s=1))
+            out.append(list(own[op["s"] - 1]))
+    return out
+
+
+def wants_reference(history):
+    """references are taken for styles that carry a tagged Style (an own history is rendered alone in a forked child)"""
+    return any(o["op"] == "custom" and o["field"] in STYLED and ":" in o["value"] for o in history)
+
+
+def style_text(history):
+    d = Driver()
+    for op in history:
+        d.step(op)
+    return d.table_text(d.styles[0])
 
 
 def render_text(comp, io):
@@ -247,13 +307,13 @@ def _ref_server():
 
     pairs = json.loads(sys.stdin.read())
     out = {}
-    for comp, io in pairs:
+    for item in pairs:
         r, w = os.pipe()
         pid = os.fork()
         if pid == 0:
             os.close(r)
             try:
-                data = json.dumps(render_text(comp, io))
+                data = json.dumps(style_text(item[1]) if item[0] == "S/" else render_text(item[0], item[1]))
             except BaseException as ex:  # noqa
                 data = json.dumps("EXC-IN-REFERENCE " + type(ex).__name__)
             with os.fdopen(w, "w") as f:
@@ -261,7 +321,7 @@ def _ref_server():
             os._exit(0)
         os.close(w)
         with os.fdopen(r) as f:
-            out[ref_key(comp, io)] = json.loads(f.read())
+            out[style_key(item[1]) if item[0] == "S/" else ref_key(item[0], item[1])] = json.loads(f.read())
         os.waitpid(pid, 0)
     sys.stdout.write(json.dumps(out))
 
@@ -282,7 +342,7 @@ def random_ops(rng, n):
             if f in ("cell_format", "header_cell_format"):
                 v = rng.choice(["[{}]", "{}", " {} "])
             elif f in STYLED:
-                v = rng.choice(["bold", "#", ""])
+                v = rng.choice(["bold", "#", "", "hdr:bold", "hdr:red", "hdr:blue", "cel:under", "cel:red"])
             else:
                 v = rng.choice(["#", "", "~", " ", "="])
             ops.append({"op": "custom", "s": rng.randint(1, nstyles), "field": f, "value": v})
@@ -326,31 +386,22 @@ def run_styles(ctx):
         "styles: customisation = every in-place change TableStyle / BorderStyle offer: assigning padding_char, cell_format, "
         "header_cell_format, cell_style, header_cell_style, default_column_alignment, column_alignments of a TableStyle, calling "
         "set_column_alignment(col, a) in any order (columns 0..2 of a 3-column table), assigning any of the 15 characters or the style of its border_style",
-        "styles: 'component' = Table, Paragraph, LabeledParagraph, EmptyLine, NameVersion, ApplicationHelp, CommandHelp, ExceptionTrace "
+        "styles: cell / header / rule styles are untagged Style objects or tagged ones ('hdr:bold' = Style('hdr').bold()); equal tags "
+        "with different attributes are different styles; a style carrying a tagged Style is also compared with a fresh process",
+        "styles: 'component' = Table, Paragraph (also on a formatter whose style set redefines the stock tag c1), LabeledParagraph, EmptyLine, NameVersion, ApplicationHelp, CommandHelp, ExceptionTrace "
         "(BlockLayout, which empties itself when rendered, is a layout helper and not included)",
         "styles: every behaviour starts from a fresh process (class-level caches are emptied by the driver between behaviours)",
         "styles: an I/O is characterised by UTF-8 support, ANSI/plain formatter, verbosity and a fixed width of 60",
     ]
     traces, cases = [], []
     notrep = 0
-    refs = fresh_references([[c, io] for c in COMPONENTS for io in ALL_IOS])
-    if len(refs) != len(COMPONENTS) * len(ALL_IOS) or any(v.startswith("EXC-IN-REFERENCE") for v in refs.values()):
-        raise T.MachineryError("reference renders incomplete")
-    ctx.extra["styles_fresh_process_references"] = len(refs)
+    todo = []
 
     def add(ops, origin, expect=None):
-        nonlocal notrep
-        evs = run_ops(ops, refs)
-        traces.append(evs)
-        cases.append({"part": "styles", "origin": origin, "ops": ops})
-        ctx.count()
-        if nontrivial(ops):
-            ctx.nontriv(json.dumps(ops, sort_keys=True))
-        if expect is not None and any(e["fields"] != x["eff"] for e, x in zip(evs, expect)):
-            notrep += 1
+        todo.append((ops, origin, expect))
 
     # depth 3 with every attribute in the menu; thorough adds depth 4 with a reduced menu
-    for tier in (["quick"] if quick else ["quick", "thorough"]):
+    for tier in (["quick", "tags"] if quick else ["quick", "tags", "thorough"]):
         r = ctx.model(SPEC, "MC_Styles", "MC_Styles_styles_%s.cfg" % tier, name="styles-all-sequences-" + tier, workers=8)
         recs = T.emitted(r)
         if len(recs) < 300:
@@ -362,7 +413,7 @@ def run_styles(ctx):
                       seed=ctx.seed % 100000)
         for b in T.emitted(r):
             add(_style_ops(b), "tlc-styles-sim", b)
-    nstyle = len(traces)
+    nstyle = len(todo)
     r = ctx.model(SPEC, "MC_Styles", "MC_Styles_renders_quick.cfg", name="renders-all-sequences", workers=8)
     recs = T.emitted(r)
     if len(recs) < 1000:
@@ -376,13 +427,33 @@ def run_styles(ctx):
                       seed=ctx.seed % 100000)
         for b in T.emitted(r):
             add(_render_ops(b), "tlc-renders-sim")
-    ctx.extra["styles_tlc_behaviours_replayed"] = len(traces)
-    ctx.extra["styles_tlc_style_behaviours_with_other_attribute_values"] = notrep
-    ctx.sample({"tlc_style_behaviour": cases[nstyle // 2]["ops"]})
-    ctx.sample({"tlc_render_behaviour": cases[-1]["ops"]})
+    ntlc = len(todo)
     # ---- code -> spec: longer seeded random mixes
     for _ in range(100 if quick else 1500):
         add(random_ops(ctx.rng, ctx.rng.randint(4, 40)), "random")
+    # ---- references: what a fresh process shows (components on every I/O; styles that carry tagged Style objects)
+    wanted = {}
+    for ops, _o, _e in todo:
+        for h in own_histories(ops):
+            if wants_reference(h):
+                wanted.setdefault(style_key(h), h)
+    refs = fresh_references([[c, io] for c in COMPONENTS for io in ALL_IOS] + [["S/", h] for h in wanted.values()])
+    if len(refs) != len(COMPONENTS) * len(ALL_IOS) + len(wanted) or any(v.startswith("EXC-IN-REFERENCE") for v in refs.values()):
+        raise T.MachineryError("reference renders incomplete")
+    ctx.extra["styles_fresh_process_references"] = len(refs)
+    for ops, origin, expect in todo:
+        evs = run_ops(ops, refs)
+        traces.append(evs)
+        cases.append({"part": "styles", "origin": origin, "ops": ops})
+        ctx.count()
+        if nontrivial(ops):
+            ctx.nontriv(json.dumps(ops, sort_keys=True))
+        if expect is not None and any(e["fields"] != x["eff"] for e, x in zip(evs, expect)):
+            notrep += 1
+    ctx.extra["styles_tlc_behaviours_replayed"] = ntlc
+    ctx.extra["styles_tlc_style_behaviours_with_other_attribute_values"] = notrep
+    ctx.sample({"tlc_style_behaviour": cases[nstyle // 2]["ops"]})
+    ctx.sample({"tlc_render_behaviour": cases[ntlc - 1]["ops"]})
     for part_t, part_c in zip(chunks(traces, 5000), chunks(cases, 5000)):
         ctx.validate(SPEC, "StylesTrace", "StylesTrace.cfg", part_t, cases=part_c, name="styles-recorded-sequences")
 
@@ -393,7 +464,8 @@ def replay_styles(ctx, case):
     ctx.nontriv("replay")
     ctx.nontriv("replay2")
     ctx.sample({"ops": ops})
-    refs = fresh_references([[o["comp"], o["io"]] for o in ops if o["op"] == "render"])
+    refs = fresh_references([[o["comp"], o["io"]] for o in ops if o["op"] == "render"]
+                            + [["S/", h] for h in own_histories(ops) if wants_reference(h)])
     ctx.validate(SPEC, "StylesTrace", "StylesTrace.cfg", [run_ops(ops, refs)], cases=[case], name="styles-replay")
 
 
